@@ -8,7 +8,7 @@
     - [mdeps v]: the views whose cached value the reader of [v] changes ([mut v d]), once its own parse has succeeded;
     - the writer of [v], after it looked at its dependencies, undoes the change ([unmut v d]) and then serialises;
     - [early = true] models a reader that changes the objects BEFORE it can still raise (the defect repaired by fix
-      61823d3): the change stays although nothing is cached for [v].
+      477021c): the change stays although nothing is cached for [v].
 
     Result ([mut_save_equiv], [mut_save_lossless]): if [early = false], every mutated view is looked at by both the
     reader and the writer of the mutating view ([mdeps v] within [v_rdeps] and [v_wdeps]), no two views change the
@@ -427,7 +427,7 @@ Proof.
   - intros v d p H _ Hr. destruct v as [|v]; [|destruct H]. destruct H as [<-|[]]. vm_compute in Hr. injection Hr as <-. reflexivity.
 Qed.
 
-(** [early = true] (fix 61823d3): the reader of view 0 raises on this file after it changed the entities; nothing is
+(** [early = true] (fix 477021c): the reader of view 0 raises on this file after it changed the entities; nothing is
     cached for view 0, so its writer never runs, and the entity lump is written without the key.  With
     [early = false] the same history is lossless. *)
 Example mut_before_raise_refuted :
